@@ -14,7 +14,7 @@ ENGINES = [
          kind_free_text="E1: crash-isolating forked children (death attributed to the exact case), RLIMIT_AS memory allowance"),
     dict(name="rustext", path="vf/rustext.py", serves_properties=["C03", "C15"],
          kind_free_text="rebuilds the PyO3 crates from the working tree (cargo --offline) and loads them ahead of stale .so files; pure-Python twin loader"),
-    dict(name="interpose", path="vf/interpose.py", serves_properties=["C07", "C08", "C09"],
+    dict(name="interpose", path="vf/interpose.py", serves_properties=["C07", "C08", "C09", "C10"],
          kind_free_text="E2: Python-level syscall interposer with three policies: deterministic baton scheduler + DFS schedule explorer, crash snapshots, fault injection"),
     dict(name="cgit", path="vf/cgit.py", serves_properties=["C20", "C03"],
          kind_free_text="hermetic C git 2.39.5 subprocess oracle (differential)"),
@@ -23,6 +23,21 @@ NOTES = ("Run ./check <ID> quick|thorough from /verif.  Exit 0/1/2 = held / VIOL
          "known_findings.json lists repaired defects (status fixed, regression inputs) and open findings.")
 NOT_APPLICABLE = {}
 CHECKS = {
+    "C10": dict(
+        level="exploration",
+        engine="vf+interpose",
+        technique="Hypothesis op-list machine (build ops x maintenance ops incl. C git repack/gc) with an independent closure walker as invariant + deterministic reader/repacker schedule exploration at file-system-call granularity",
+        text="Generated repositories (loose/packed/duplicated/thin-pack/alternate objects, branches, lightweight and annotated tags of every target type, detached and unborn HEAD, backdated mtimes) are put through generated sequences of pack_loose_objects, repack, repack(exclude), prune_unreachable_objects, garbage_collect, prune, pack_refs, write_midx, write_commit_graph, bitmaps, porcelain gc/repack, git repack -ad, git gc and re-opening; before each maintenance step the closure of refs+HEAD is computed independently and afterwards every such object must be readable with identical bytes through a long-lived and a fresh handle, ref values unchanged, fresh unreachable objects kept unless dropped without grace on request, git fsck --connectivity-only clean. Reader actors (store[id], in, get_raw, contains_packed/loose, iterobjects_subset) are interleaved with repack / pack_loose_objects / gc / a scripted git repack and must never see an existing object as missing.",
+        design_ref="DESIGN.md §4 C10, §3 E2",
+        note="reachability = refs and HEAD; grace judged with mtimes far from the boundary; full-store listings during a repack are report-only; failing maintenance/build operations through a stale handle are labels, not violations (their effects are still judged)",
+    ),
+    "C16": dict(
+        level="exploration",
+        technique="model-based operation sequences (map model from the RefsContainer docstrings) + differential against C git's view of the same directory after every step + exhaustive ref-name enumeration against a validated transcription of git check-ref-format",
+        text="Every generated sequence (<=30 ops, two handles, pack_refs/add_packed_refs/re-open, C git acting on the same directory) over a 9-name universe with file/directory collisions, symref chains/loops/dangling, HEAD attached/detached, loose/packed/both, an annotated tag: DiskRefsContainer's return values, refusals and full observable state (all readers incl. get_peeled) equal the model, and git for-each-ref / show-ref --head -d / symbolic-ref list the same refs, symrefs and peeled values after every step; Dict and Reftable containers match the same model on the sub-language without symref write-through and colliding names; check_ref_format equals git-check-ref-format on every string of <=5 (thorough 6) symbols of a 15-symbol class alphabet, every byte in 8 templates and 40k longer names.",
+        design_ref="DESIGN.md §4 C16",
+        note="trusted: git 2.39.5 (no reftable backend: that container is judged by the model only), the map model (self-tested against git each run), the manual-page transcription (validated against the git binary on 4000 names per run and on every disagreement); contract ambiguities accepted either way; import_refs and NamespacedRefsContainer not exercised",
+    ),
     "C11": dict(
         level="exploration",
         technique="reference index model (written from gitformat-index) + C git differential both ways + exhaustive truncation / single-byte damage of small index files",
